@@ -50,7 +50,10 @@ def diff(a, b, path="", rtol=RTOL):
 
 
 def user_warnings(rec):
-    return [w[1] for w in rec.get("warn", []) if w[0] == "UserWarning"]
+    """UserWarnings attributed to the user's call site or to optyx itself (what optyx emits).
+    Warnings located inside SciPy are shown once per process by Python's default filter and are
+    not optyx's to repeat; they are not compared."""
+    return [w[1] for w in rec.get("warn", []) if w[0] == "UserWarning" and (len(w) < 3 or w[2] in ("user", "optyx"))]
 
 
 def seam_sig(rec):
